@@ -250,7 +250,8 @@ def judge(ctx, cases, traces):
         if t['id'] in v2 and v2[t['id']] != v:
             # the multi-entry queue explains the first mismatch: the known NRT defect; a later rejection under
             # that semantics is a different problem and is reported with its own clause
-            ctx.violation(KNOWN_DUP, 'NRT schedules a routine that is already queued a second time', rp)
+            ctx.violation(KNOWN_DUP, 'the clock queue holds a second entry for a routine that was already queued '
+                          '(one entry per scheduling instead of replacing it)', rp)
             if v2[t['id']] is None:
                 continue
             at, why = v2[t['id']]
